@@ -1513,6 +1513,21 @@ class Extractor:
         for (ws, wk, wopen, wend) in wrappers:
             pre.append(('src', toks[wk].start, toks[wopen].end))
             pre.append(('ins', '\n', 'wrap'))
+            if spec.get('keep_assoc_types'):
+                # the associated types of the enclosing trait impl (`type Error = ..;`) come along, verbatim from the source:
+                # without them the impl is not an impl of the trait
+                k = wopen + 1
+                while k < wend:
+                    if toks[k].text in OPEN:
+                        k = match_close(toks, k)
+                    elif toks[k].kind == 'ident' and toks[k].text == 'type' and toks[k - 1].text in ('{', ';', '}', ']'):
+                        k2 = k
+                        while toks[k2].text != ';':
+                            k2 += 1
+                        pre.append(('src', toks[k].start, toks[k2].end))
+                        pre.append(('ins', '\n', 'wrap'))
+                        k = k2
+                    k += 1
             post.insert(0, ('ins', '\n', 'wrap'))
             post.insert(0, ('src', toks[wend].start, toks[wend].end))
         if spec.get('lift') and wrappers:
